@@ -1185,6 +1185,10 @@ class Verifier:
             return el, n
         if isinstance(it, SymObjSeq):
             return (lambda s, i: ip.lib.objseq_elem(ip, s, it, i)), it.length
+        if isinstance(it, Opaque) and "elements" in it.attrs:
+            # an external iterable described by a symbolic list and a wrapper for its elements
+            seq, wrap = it.attrs["elements"], it.attrs.get("wrap", lambda e: e)
+            return (lambda s, i: wrap(L.elem_value(seq.kind, tm.Nth(seq.term, i)))), tm.Len(seq.term)
         if isinstance(it, JVal):
             k = L.known_tag(ip, st, it)
             if k == V.TAG_LIST:
@@ -1367,6 +1371,11 @@ def _exists_int(ip, st, lo, hi, fn):
 @spec_builtin("is_none")
 def _is_none(ip, st, v):
     return v is None
+
+
+@spec_builtin("is_str")
+def _is_str(ip, st, v):
+    return kind_of(v) == "str"
 
 
 @spec_builtin("is_instance")
